@@ -128,33 +128,36 @@ class GeckoAsyncLocator(Observable):
         assert isinstance(_protocol, GeckoAsyncUdpProtocol)
         self._protocol = _protocol
         assert self._transport is not None
-        self._spas = []
+        try:
+            self._spas = []
 
-        hello_handler = GeckoHelloProtocolHandler.broadcast(
-            async_on_handled=self._async_on_discovered
-        )
-        self._task_man.add_task(
-            hello_handler.consume(self._protocol), "Hello handler", "LOC"
-        )
-        self._task_man.add_task(
-            self._broadcast_loop(hello_handler), "Broadcast loop", "LOC"
-        )
+            hello_handler = GeckoHelloProtocolHandler.broadcast(
+                async_on_handled=self._async_on_discovered
+            )
+            self._task_man.add_task(
+                hello_handler.consume(self._protocol), "Hello handler", "LOC"
+            )
+            self._task_man.add_task(
+                self._broadcast_loop(hello_handler), "Broadcast loop", "LOC"
+            )
 
-        self._started = time.monotonic()
-        self._on_change(self)
+            self._started = time.monotonic()
+            self._on_change(self)
 
-        while self.age < GeckoConfig.DISCOVERY_TIMEOUT_IN_SECONDS:
-            if self.has_had_enough_time:
-                if len(self._spas) > 0:
-                    _LOGGER.info("Found %d spas ... %s", len(self._spas), self._spas)
+            while self.age < GeckoConfig.DISCOVERY_TIMEOUT_IN_SECONDS:
+                if self.has_had_enough_time:
+                    if len(self._spas) > 0:
+                        _LOGGER.info("Found %d spas ... %s", len(self._spas), self._spas)
+                        break
+                if self._has_found_spa:
                     break
-            if self._has_found_spa:
-                break
-            await asyncio.sleep(GeckoConstants.ASYNCIO_SLEEP_TIMEOUT_FOR_YIELD)
+                await asyncio.sleep(GeckoConstants.ASYNCIO_SLEEP_TIMEOUT_FOR_YIELD)
 
-        _LOGGER.debug("Discovery complete, close transport")
-        self._task_man.cancel_key_tasks("LOC")
-        self._transport.close()
-        self._transport = None
-        self._protocol = None
+        finally:
+            # Also when discovery is cancelled: release the endpoint and the helpers
+            _LOGGER.debug("Discovery complete, close transport")
+            self._task_man.cancel_key_tasks("LOC")
+            self._transport.close()
+            self._transport = None
+            self._protocol = None
         self._on_change(self)
